@@ -1,8 +1,9 @@
 /-
   Executable model of the bridging part of `pyipmi/interfaces/ipmb.py`:
   `encode_send_message`, `encode_bridged_message`, `decode_bridged_message`, and of the part of
-  `Rmcp._send_and_receive` (interfaces/rmcp.py) that C09 is about: unwrap a Send Message
-  response, `continue` WITHOUT charging the retry counter when only an acknowledgement came.
+  `Rmcp._send_and_receive` (interfaces/rmcp.py) that C09 (and the last clause of C03) is about:
+  recognise and unwrap a Send Message response, `continue` WITHOUT charging the retry counter when
+  only an acknowledgement came.  Two variants of the recognition: as shipped / repaired (`Variant`).
 
   Send Message ids and the bit positions of the channel byte come from `Gen/IpmbFilter.lean`
   (live `SendMessageReq` class); frames are built by the C03 model `encodeIpmbMsg`.
@@ -67,30 +68,66 @@ def Target.request (t : Target) (h : Hdr) (payload : List Nat) (seq : Nat) : Out
   | some (r :: rs) => encodeBridged (r :: rs) h payload seq
   | _ => .pyError "not-routed"
 
-/-- `decode_bridged_message(rx_data)`:
+/-- The two states of the source that the checks tell apart (DESIGN §2.4):
+
+* `asShipped` — a Send Message response is recognised by its command byte alone
+  (`array('B', rx_data)[5] == CMDID_SEND_MESSAGE`, in `decode_bridged_message` and in
+  `Rmcp._send_and_receive`), nothing of the wrapper is verified, and the transport unwraps
+  whether or not the request in hand was bridged;
+* `repaired` (fixes/C09-1.diff) — `is_send_message_response`: netFn App + 1 AND command 34h, both
+  checksums when the caller asks (`verify=True`); the transport unwraps only a frame that passes
+  `rx_filter` for the Send Message request it has outstanding. -/
+inductive Variant where
+  | asShipped
+  | repaired
+  deriving DecidableEq, Repr
+
+/-- `is_send_message_response(rx_data, verify)` (repaired) / the byte-5 test (as shipped), on a
+frame of at least six bytes -/
+def isSendMsgRsp (v : Variant) (verify : Bool) (rx : List Nat) : Bool :=
+  match v with
+  | .asShipped => byteAt rx 5 == Gen.IpmbFilter.constSendMsgCmd
+  | .repaired =>
+    (byteAt rx 1 >>> 2 == Gen.IpmbFilter.constNetfnApp + 1) && (byteAt rx 5 == Gen.IpmbFilter.constSendMsgCmd) &&
+    (!verify || (pyChecksum (rx.take 3) == 0 && pyChecksum (rx.drop 3) == 0))
+
+/-- the same test on a frame shorter than six bytes: `data[5]` raises IndexError — unless (repaired)
+`data[1] >> 2 != NETFN_APP + 1` already decided (`or` short-circuits) -/
+def shortFrame (v : Variant) (rx : List Nat) : Outcome (List Nat) :=
+  match v with
+  | .asShipped => .pyError "IndexError"
+  | .repaired =>
+    if rx.length ≤ 1 then .pyError "IndexError"
+    else if byteAt rx 1 >>> 2 ≠ Gen.IpmbFilter.constNetfnApp + 1 then .ok rx
+    else .pyError "IndexError"
+
+/-- `decode_bridged_message(rx_data, verify)`:
 ```
-while array('B', rx_data)[5] == CMDID_SEND_MESSAGE:
+while is_send_message_response(rx_data, verify):        # as shipped: array('B', rx_data)[5] == CMDID_SEND_MESSAGE
     rsp = SendMessageRsp; decode_message(rsp, rx_data[6:]); check_completion_code(rsp.completion_code)
     rx_data = rx_data[7:-1]
     if len(rx_data) < 6: break
 return rx_data
 ``` -/
-def decodeBridged (rx : List Nat) : Outcome (List Nat) :=
-  if h : 5 < rx.length then
-    if rx[5] ≠ Gen.IpmbFilter.constSendMsgCmd then .ok rx
-    else
-      match rx.drop 6 with
-      | [] => .decodingError                       -- no completion code: "Data too short for message"
-      | cc :: _ =>
-        if cc ≠ 0 then .ccError cc
-        else
-          let rx' := (rx.drop 7).dropLast
-          if rx'.length < 6 then .ok rx' else decodeBridged rx'
-  else .pyError "IndexError"
-termination_by rx.length
-decreasing_by
-  simp only [List.length_dropLast, List.length_drop]
-  omega
+def decodeN (v : Variant) (verify : Bool) : Nat → List Nat → Outcome (List Nat)
+  | 0, rx => .ok rx
+  | n + 1, rx =>
+    if 5 < rx.length then
+      if isSendMsgRsp v verify rx then
+        match rx.drop 6 with
+        | [] => .decodingError                       -- no completion code: "Data too short for message"
+        | cc :: _ =>
+          if cc ≠ 0 then .ccError cc
+          else
+            let rx' := (rx.drop 7).dropLast
+            if rx'.length < 6 then .ok rx' else decodeN v verify n rx'
+      else .ok rx
+    else shortFrame v rx
+
+/-- the loop above; the fuel (structural recursion, so that `decide` can run it) never runs out: every
+round removes eight bytes (`Bridge.decodeBridged_eq`) -/
+def decodeBridged (v : Variant) (verify : Bool) (rx : List Nat) : Outcome (List Nat) :=
+  decodeN v verify (rx.length + 1) rx
 
 /-- an exception propagates unchanged, whatever the type of the value would have been -/
 def errAs {α β : Type} : Outcome α → Outcome β
@@ -104,26 +141,73 @@ def errAs {α β : Type} : Outcome α → Outcome β
   | .notSupported => .notSupported
   | .pyError n => .pyError n
 
+/-- What the body of the receive loop of `Rmcp._send_and_receive` makes of one received frame, as far
+as bridging is concerned. -/
+inductive RxClass where
+  | ack                              -- only the acknowledgement came: `continue`, `received_retry` untouched
+  | hit (data : List Nat)            -- `rx_filter` said yes: `rx_data[6:-1]` is returned
+  | noise                            -- `rx_filter` said no (what happens next is property C04's)
+  | err (e : Outcome (List Nat))     -- an exception leaves the function
+  deriving DecidableEq, Repr
+
+/-- `received = rx_filter(header, rx_data, rq_seq=…)` and the returned slice -/
+def afterFilter (req : Hdr) (fl : Flags) (g : List Nat) : RxClass :=
+  match rxFilter req g fl with
+  | .ok true => .hit (g.drop 6).dropLast
+  | .ok false => .noise
+  | e => .err (errAs e)
+
+/-- `rx_data = decode_bridged_message(…); if not rx_data: continue` then the filter -/
+def afterUnwrap (req : Hdr) (fl : Flags) : Outcome (List Nat) → RxClass
+  | .ok [] => .ack
+  | .ok g => afterFilter req fl g
+  | e => .err (errAs e)
+
+/-- `bridge_header` of the repaired `_send_and_receive`: what the response to the outermost Send
+Message of THIS request must match (netFn App, LUN 0, command 34h, the request's sequence number);
+`None` unless the routing has more than one entry.  The address fields stay unset in the Python
+(`rx_filter` does not compare them under the flags the transport passes). -/
+def bridgeHdr (seq : Nat) : Hdr :=
+  { netfn := Gen.IpmbFilter.constNetfnApp, rsLun := 0, seq := seq, cmd := Gen.IpmbFilter.constSendMsgCmd,
+    rsSa := 0, rqSa := 0, rqLun := 0 }
+
+def bridgeOf (routing : List Route) (seq : Nat) : Option Hdr :=
+  if 1 < routing.length then some (bridgeHdr seq) else none
+
+/-- One received frame in the loop body.
+
+As shipped: `if array('B', rx_data)[5] == CMDID_SEND_MESSAGE: rx_data = decode_bridged_message(rx_data)`
+— whatever request is outstanding.  Repaired: `if bridge_header is not None and rx_filter(bridge_header,
+rx_data, rq_seq=…): rx_data = decode_bridged_message(rx_data, verify=True)`; every other frame goes to
+the reply filter as it is. -/
+def classifyRx (v : Variant) (bridge : Option Hdr) (req : Hdr) (fl : Flags) (f : List Nat) : RxClass :=
+  match v with
+  | .asShipped =>
+    if 5 < f.length then
+      if byteAt f 5 = Gen.IpmbFilter.constSendMsgCmd then afterUnwrap req fl (decodeBridged .asShipped false f)
+      else afterFilter req fl f
+    else .err (.pyError "IndexError")
+  | .repaired =>
+    match bridge with
+    | none => afterFilter req fl f
+    | some bh =>
+      match rxFilter bh f { rqSeq := fl.rqSeq } with
+      | .ok true => afterUnwrap req fl (decodeBridged .repaired true f)
+      | .ok false => afterFilter req fl f
+      | e => .err (errAs e)
+
 /-- Receive side of `Rmcp._send_and_receive` as far as bridging is concerned, over the frames
-that arrive after the request was sent (`none` = all consumed, still waiting):
-a Send Message response is unwrapped; an empty result means "only the acknowledgement came,
-the forwarded reply is in the next packet" and the loop continues without touching
-`received_retry`; the first other frame is given to `rx_filter` and, if it matches, its
-completion code and data (`rx_data[6:-1]`) are returned.  What happens to a frame that does NOT
-match (re-queue, retry accounting) is property C04's and is left abstract here. -/
-def recvBridged (req : Hdr) (fl : Flags) : List (List Nat) → Option (Outcome (List Nat))
+that arrive after the request was sent (`none` = all consumed, still waiting): acknowledgements are
+skipped without touching `received_retry`; the first other frame decides.  What happens after a
+frame that does NOT match (retry accounting) is property C04's and is left abstract here. -/
+def recvBridged (v : Variant) (bridge : Option Hdr) (req : Hdr) (fl : Flags) :
+    List (List Nat) → Option (Outcome (List Nat))
   | [] => none
   | f :: rest =>
-    if h : 5 < f.length then
-      let unwrapped := if f[5] = Gen.IpmbFilter.constSendMsgCmd then decodeBridged f else .ok f
-      match unwrapped with
-      | .ok [] => recvBridged req fl rest
-      | .ok g =>
-        match rxFilter req g fl with
-        | .ok true => some (.ok (g.drop 6).dropLast)
-        | .ok false => some (.pyError "unmatched-frame:C04")
-        | e => some (errAs e)
-      | e => some (errAs e)
-    else some (.pyError "IndexError")
+    match classifyRx v bridge req fl f with
+    | .ack => recvBridged v bridge req fl rest
+    | .hit d => some (.ok d)
+    | .noise => some (.pyError "unmatched-frame:C04")
+    | .err e => some e
 
 end PyIpmi.Bridge
